@@ -29,7 +29,7 @@ def run(tier, seed):
         "printed text is compared with the spec's text modulo whitespace; structure is compared exactly",
     ]
     big = tier == "thorough"
-    base = {"Part": '"strings"', "MaxLen": 4 if big else 3, "ExportOn": True, "SampleN": 1}
+    base = {"Part": '"strings"', "MaxLen": 5 if big else 3, "ExportOn": True, "SampleN": 1}
     cfg = vlib.write_cfg(os.path.join(ctx.work, "strings.cfg"), base, ["StringRoundTrip", "ExportStr"])
     res = ctx.tlc("Syntax", cfg, name="strings", tags=("STR",), seed=seed)
     if res.violated:
